@@ -14,6 +14,7 @@
 -/
 import OQuPyVerif.Lemmas.Correlations
 import OQuPyVerif.Lemmas.CorrelationsParse
+import OQuPyVerif.Lemmas.CorrelationsBath
 import Mathlib.LinearAlgebra.Matrix.Trace
 import Mathlib.LinearAlgebra.Matrix.ConjTranspose
 
@@ -516,5 +517,214 @@ example : dtFlow (some (lit 2 1)) none = .ok (lit 2 1, lit 2 1) := by decide +ke
 example : dtFlow none (some (lit 1 1)) = .ok (lit 1 1, lit 1 1) := by decide +kernel
 /-- a contradicting `dt` is refused instead of relabelling the axes -/
 example : dtFlow (some (lit 2 1)) (some (lit 1 1)) = .error .dtMismatch := by decide +kernel
+
+/-! ### (4) bath correlations derived from system correlations (oqupy/bath_dynamics.py) -/
+
+section Bath
+open OQuPyVerif.CorrelationsBath OQuPyVerif.Generated.CorrBath
+
+/-- `Bath` stores `U` (eigenvector matrix) and `D = diag(w)` with `U·D·U† = O`, the operator it
+    was given (C05's `IsDiagonalisation`, evaluated on every Bath in the correspondence).  The
+    operator that `generate_system_correlations` rebuilds from them and hands to
+    `compute_correlations` is that `O` — for every dimension and every such `U, D`. -/
+theorem coup_op_rebuilt {n : Type} [Fintype n] [DecidableEq n] {K : Type} [CommRing K] [StarRing K]
+    (U D O : Matrix n n K) (h : U * D * U.conjTranspose = O) :
+    rebuiltCoupling (· * ·) U U.conjTranspose D = some O ∧
+    evalFactors (· * ·) U U.conjTranspose D bath_reconstruction_factors = some O ∧
+    bath_reconstructs = "tmp_coupling_operator" := by
+  subst h
+  exact ⟨rfl, rfl, rfl⟩
+
+/-- the order matters: with the operands exchanged (`U†·D·U`) a rotation by a 3-4-5 angle and
+    `D = diag(1, 0)` give a different operator (non-vacuity of `coup_op_rebuilt`: this `U` is
+    orthogonal) -/
+example :
+    let U : Matrix (Fin 2) (Fin 2) ℚ := !![3/5, -4/5; 4/5, 3/5]
+    let D : Matrix (Fin 2) (Fin 2) ℚ := !![1, 0; 0, 0]
+    U * U.transpose = 1 ∧
+    evalFactors (· * ·) U U.transpose D ["U", "D", "Ud"] = some (U * D * U.transpose) ∧
+    evalFactors (· * ·) U U.transpose D ["Ud", "D", "U"] ≠ some (U * D * U.transpose) := by
+  intro U D
+  refine ⟨?_, rfl, ?_⟩
+  · ext i j; fin_cases i <;> fin_cases j <;> simp [U, Matrix.mul_apply, Fin.sum_univ_two] <;> norm_num
+  · intro h
+    have h' : U.transpose * D * U = U * D * U.transpose := Option.some.inj h
+    have := congrFun (congrFun h' 0) 1
+    simp [U, D, Matrix.mul_apply, Fin.sum_univ_two] at this
+    norm_num at this
+
+/-- What feeds `occupation()` and `correlation()`: one `compute_correlations` call with the
+    rebuilt operator as both `operator_a` and `operator_b`, default (`'ordered'`) time order, the
+    object's system / process tensor / initial state, the process tensor's own `dt`, and the
+    slices `[0, m)` × `[0, m)` (first call) or `[0, m)` × `[current, m)` (extension). -/
+theorem sys_corr_feeds :
+    lookup "operator_a" sys_corr_call = some "coup_op" ∧
+    lookup "operator_b" sys_corr_call = some "coup_op" ∧
+    lookup "time_order" sys_corr_call = none ∧ sys_corr_default_time_order = "'ordered'" ∧
+    lookup "system" sys_corr_call = some "self.system" ∧
+    lookup "process_tensor" sys_corr_call = some "self._process_tensor" ∧
+    lookup "initial_state" sys_corr_call = some "self.initial_state" ∧
+    lookup "times_a" sys_corr_call = some "times_a" ∧
+    lookup "times_b" sys_corr_call = some "times_b" ∧
+    lookup "dt" sys_corr_call = none ∧ lookup "start_time" sys_corr_call = none ∧
+    sys_corr_dt_source = ["self._process_tensor.dt"] ∧
+    sys_corr_times_a = ["slice(corr_mat_dim)"] ∧
+    sys_corr_times_b = ["slice(corr_mat_dim)", "slice(current_corr_dim, corr_mat_dim)"] ∧
+    occupation_feeds = ["self.generate_system_correlations(last_time, progress_type)",
+      "self._calc_kernel(freq, last_time, freq, last_time, (1, 0))",
+      "_sys_correlations.real * re_kernel + 1j * _sys_correlations.imag * im_kernel"] ∧
+    correlation_feeds = ["self.generate_system_correlations(time_2, progress_type)",
+      "self._calc_kernel(freq_1, time_1, freq_2, time_2, dagg)",
+      "_sys_correlations.real * re_kernel + 1j * _sys_correlations.imag * im_kernel"] := by
+  decide
+
+/-- `slice(b)` with `0 ≤ b ≤ maxStep+1` selects `0, …, b−1` -/
+theorem parse_slice_upto (maxStep : Int) (dt start : Rat) (b : Int) (h : 0 ≤ b ∧ b ≤ maxStep + 1) :
+    parseTimes maxStep dt start (.slice none (some b) none) =
+      .ok ((List.range b.toNat).map (fun (i : Nat) => (i : Int))) := by
+  simp only [parseTimes, arangeSlice, index_base_len, Option.getD_none, adjStart, adjStop,
+    clampBound, pyRange_one]
+  by_cases hb : b ≥ maxStep + 1
+  · simp [hb, show ¬ (b < 0) by omega]; (try congr 2); omega
+  · simp [hb, show ¬ (b < 0) by omega]
+
+/-- The layout of the system-correlation matrix that the kernels are multiplied with: the call
+    of `generate_system_correlations` for `m` steps on top of `c` existing ones returns the
+    steps `[0..m)` × `[c..m)`; by `aligned_index` its entry `[i, j]` is the ordered correlation
+    for steps `(i, c+j)` when `i ≤ c+j` and NaN otherwise — an upper-triangular matrix whose
+    row is the earlier time (`tkp`, exponent `b`) and whose column is the later time (`tk`,
+    exponent `a`), the orientation `kernel_tk_is_column` records. -/
+theorem sys_corr_steps (maxStep : Int) (dt start : Rat) (c m : Int) (o : Outcome)
+    (hcm : 0 ≤ c ∧ c ≤ m ∧ m ≤ maxStep + 1)
+    (h : corrNt maxStep dt start [.slice none (some m) none, .slice (some c) (some m) none] = .ok o) :
+    o.steps = [(List.range m.toNat).map (fun (i : Nat) => (i : Int)),
+               (List.range (m - c).toNat).map (fun (i : Nat) => c + (i : Int))] := by
+  obtain ⟨hp, -⟩ := axes_grid maxStep dt start _ o h
+  generalize o.steps = st at hp ⊢
+  cases hp with
+  | cons h1 hp =>
+    cases hp with
+    | cons h2 hp =>
+      cases hp
+      rw [parse_slice_upto maxStep dt start m ⟨by omega, by omega⟩] at h1
+      rw [(parse_slice_forward maxStep dt start c m hcm).1] at h2
+      simp only [Except.ok.injEq] at h1 h2
+      rw [← h1, ← h2]
+
+/-- non-vacuity: 3 steps on top of 1 existing column -/
+example :
+    (corrNt 4 (lit 1 1) 0 [.slice none (some 3) none, .slice (some 1) (some 3) none]).toOption.map
+      (fun o => (o.steps, o.indexTuples.map o.entry)) =
+    some ([[0, 1, 2], [1, 2]], [some [0, 1], some [0, 2], some [1, 1], some [1, 2], none, some [2, 2]]) := by
+  decide +kernel
+
+/-- how the kernels are assembled from the cells (`phase`), per `dagg`, and which half is kept.
+    That this assembly yields the bath correlation of the displaced-oscillator model is physics
+    and NOT shown here; the table is pinned so that any change of it re-opens this file. -/
+theorem kernel_assembly :
+    kernel_tk_is_column = true ∧
+    kernel_regions = [("a", "(slice(switch), slice(switch))"),
+                      ("b", "(slice(switch), slice(switch, None))"),
+                      ("c", "(slice(switch, None), slice(switch, None))")] ∧
+    kernel_finish = ["np.zeros((ker_dim, ker_dim), dtype=NpDtype)", "np.triu(re_kernel)",
+                     "np.zeros((ker_dim, ker_dim), dtype=NpDtype)", "np.triu(im_kernel)"] ∧
+    kernel_thermal = ["np.exp(-freq_1 / self._temp) / (1 - np.exp(-freq_1 / self._temp))",
+                      "np.exp(-freq_2 / self._temp) / (1 - np.exp(-freq_2 / self._temp))"] ∧
+    kernel_table =
+     [("(0, 1) re_kernel[regions['a']]", "phase('a') + phase('a', 1)"),
+      ("(0, 1) re_kernel[regions['b']]", "phase('b')"),
+      ("(0, 1) im_kernel[regions['a']]", "(2 * n_1 + 1) * phase('a') - (2 * n_2 + 1) * phase('a', 1)"),
+      ("(0, 1) im_kernel[regions['b']]", "(2 * n_1 + 1) * phase('b')"),
+      ("(0, 1) im_kernel[regions['c']]", "-2 * (n_1 + 1) * phase('c')"),
+      ("(1, 0) re_kernel[regions['a']]", "phase('a') + phase('a', 1)"),
+      ("(1, 0) re_kernel[regions['b']]", "phase('b')"),
+      ("(1, 0) im_kernel[regions['a']]", "(2 * n_1 + 1) * phase('a') - (2 * n_2 + 1) * phase('a', 1)"),
+      ("(1, 0) im_kernel[regions['b']]", "(2 * n_1 + 1) * phase('b')"),
+      ("(1, 0) im_kernel[regions['c']]", "2 * n_1 * phase('c')"),
+      ("(1, 1) re_kernel[regions['a']]", "-(phase('a') + phase('a', 1))"),
+      ("(1, 1) re_kernel[regions['b']]", "-phase('b')"),
+      ("(1, 1) im_kernel[regions['a']]", "(2 * n_1 + 1) * phase('a') + (2 * n_2 + 1) * phase('a', 1)"),
+      ("(1, 1) im_kernel[regions['b']]", "(2 * n_1 + 1) * phase('b')"),
+      ("(1, 1) im_kernel[regions['c']]", "2 * (n_1 + 1) * phase('c')"),
+      ("(0, 0) re_kernel[regions['a']]", "-(phase('a') + phase('a', 1))"),
+      ("(0, 0) re_kernel[regions['b']]", "-phase('b')"),
+      ("(0, 0) im_kernel[regions['a']]", "-((2 * n_2 + 1) * phase('a', 1) + (2 * n_1 + 1) * phase('a'))"),
+      ("(0, 0) im_kernel[regions['b']]", "-(2 * n_1 + 1) * phase('b')"),
+      ("(0, 0) im_kernel[regions['c']]", "-2 * n_1 * phase('c')")] := by
+  decide
+
+/-- Every off-diagonal cell of the kernels (regions a, c above the diagonal and all of region b)
+    is the exact integral of `e^{a t'} e^{b t''}` over its cell
+    `[tk·dt, (tk+1)·dt] × [tkp·dt, (tkp+1)·dt]`. -/
+theorem kernel_cell_exact (a b : ℂ) (ha : a ≠ 0) (hb : b ≠ 0) (dt tk tkp : ℝ) :
+    phase_cell_rect Complex.exp a b dt tk tkp =
+      (∫ t in (tk * dt)..((tk + 1) * dt), Complex.exp (a * t)) *
+        (∫ s in (tkp * dt)..((tkp + 1) * dt), Complex.exp (b * s)) ∧
+    phase_cell_tri Complex.exp a b dt tk tkp = phase_cell_rect Complex.exp a b dt tk tkp := by
+  refine ⟨?_, rfl⟩
+  rw [cell_rect Complex.exp Complex.exp_add a b dt tk tkp ha hb,
+      ← expInt_is_integral a ha, ← expInt_is_integral b hb]
+  push_cast
+  rfl
+
+/-- the same identity over any field with any exponential-like `E` (e.g. the Gaussian rationals
+    of the executable models) -/
+theorem kernel_cell_algebraic {K : Type} [Field K] (E : K → K) (hE : ∀ x y, E (x + y) = E x * E y)
+    (a b dt tk tkp : K) (ha : a ≠ 0) (hb : b ≠ 0) :
+    phase_cell_rect E a b dt tk tkp =
+      expInt E a (tk * dt) ((tk + 1) * dt) * expInt E b (tkp * dt) ((tkp + 1) * dt) :=
+  cell_rect E hE a b dt tk tkp ha hb
+
+/-- A diagonal cell of regions a, c with `a + b ≠ 0` is the exact integral over the triangle
+    `tk·dt ≤ t'' ≤ t' ≤ (tk+1)·dt`. -/
+theorem kernel_diag_exact (a b : ℂ) (ha : a ≠ 0) (hb : b ≠ 0) (hab : a + b ≠ 0) (dt s : ℝ) :
+    phase_diag_generic Complex.exp a b dt s =
+      ∫ t in (s * dt)..((s + 1) * dt), Complex.exp (a * t) *
+        ∫ u in (s * dt)..t, Complex.exp (b * u) := by
+  rw [diag_generic Complex.exp Complex.exp_add a b dt s ha hb hab,
+      ← triInt_is_integral a b ha hb hab]
+  push_cast
+  rfl
+
+/- FULL STATEMENT (does NOT hold for the current source):
+     `a + b = 0 → phase_diag_degenerate exp a b dt s = ∫ t in s·dt..(s+1)·dt, e^{a t} ∫ u in s·dt..t, e^{b u}`.
+   In the source's linear term `1 + a·sel·dt + b·(sel+1)·dt` the roles of `a` and `b` are
+   exchanged.  The cell is only used with equal frequencies and one daggered operator (e.g. by
+   `occupation`).  What holds, and why it is unobservable for Hermitian states: -/
+/-- Degenerate diagonal cell (`a + b = 0`): (i) it differs from the exact triangle integral by
+    `(b − a)·dt/(a·b)`; (ii) the sum over both operand orders — all the *real* kernel uses — is
+    the exact sum of the two triangle integrals.  The *imaginary* kernel uses the difference of
+    the two orders, so its diagonal is off by `2(2n+1)(b − a)dt/(ab)`; it multiplies
+    `Im⟨O(t)O(t)⟩`, which vanishes for a Hermitian coupling operator and a Hermitian state. -/
+theorem kernel_diag_degenerate_partial (a b : ℂ) (ha : a ≠ 0) (hab : a + b = 0) (dt s : ℝ) :
+    (phase_diag_degenerate Complex.exp a b dt s =
+      (∫ t in (s * dt)..((s + 1) * dt), Complex.exp (a * t) * ∫ u in (s * dt)..t, Complex.exp (b * u))
+        + (b - a) * dt / (a * b)) ∧
+    (phase_diag_degenerate Complex.exp a b dt s + phase_diag_degenerate Complex.exp b a dt s =
+      (∫ t in (s * dt)..((s + 1) * dt), Complex.exp (a * t) * ∫ u in (s * dt)..t, Complex.exp (b * u))
+      + ∫ t in (s * dt)..((s + 1) * dt), Complex.exp (b * t) * ∫ u in (s * dt)..t, Complex.exp (a * u)) := by
+  have hb : b ≠ 0 := by
+    intro hb; apply ha; rw [hb, add_zero] at hab; exact hab
+  have hba : b + a = 0 := by rw [add_comm]; exact hab
+  constructor
+  · rw [diag_degenerate_defect Complex.exp Complex.exp_add Complex.exp_zero a b dt s ha hab,
+        ← triIntDeg_is_integral a b ha hb hab]
+    push_cast
+    rfl
+  · rw [diag_degenerate_sum Complex.exp Complex.exp_add Complex.exp_zero a b dt s ha hab,
+        ← triIntDeg_is_integral a b ha hb hab, ← triIntDeg_is_integral b a hb ha hba]
+    push_cast
+    rfl
+
+/-- non-vacuity of the kernel theorems: the exponents of `occupation` at frequency `w` -/
+example (w : ℝ) (hw : w ≠ 0) :
+    phase_a Complex.I (1 : ℂ) (w : ℂ) ≠ 0 ∧
+      phase_a Complex.I (1 : ℂ) (w : ℂ) + phase_b Complex.I (0 : ℂ) (w : ℂ) = 0 := by
+  unfold phase_a phase_b
+  constructor
+  · simp [hw]; norm_num
+  · push_cast; ring
+
+end Bath
 
 end OQuPyVerif.Props.C07
